@@ -67,6 +67,7 @@ func init() {
 type osFnCfg struct {
 	fn   string // "Point.Add", "IsOnCurve", "X448"
 	lean string // Lean definition name
+	// "if.cond" / "if.then" / "if.else": function `if c { …; return }; …` split at its one early return;
 	// statement range of a function with a loop (x448.X448): "" = whole body;
 	// "init" = after the last top-level `….SetBytes(…)` statement up to the unique `for`;
 	// "step" = the body of the unique `for`;
@@ -118,6 +119,9 @@ var osConfigs = []osConfig{
 			{fn: "PointJacobian.Equal", lean: "jequal"},
 			{fn: "PointJacobian.Double", lean: "jdouble"},
 			{fn: "PointJacobian.Add", lean: "jadd"},
+			{fn: "Point.FromJacobian", lean: "fromJacobianCond", seg: "if.cond"},
+			{fn: "Point.FromJacobian", lean: "fromJacobianThen", seg: "if.then"},
+			{fn: "Point.FromJacobian", lean: "fromJacobianElse", seg: "if.else"},
 		},
 	},
 	{
@@ -1049,7 +1053,8 @@ func osTranslate(p *osPkg, fc *osFnCfg) (*osResult, error) {
 	var body []ast.Stmt
 	var outs []*osVar
 	doc := fc.fn
-	if fc.seg == "" {
+	whole := fc.seg == "" || strings.HasPrefix(fc.seg, "if.")
+	if whole {
 		if fd.Recv != nil {
 			if len(fd.Recv.List) != 1 || len(fd.Recv.List[0].Names) != 1 {
 				return nil, p.errAt(fd, "%s: unnamed receiver", fc.fn)
@@ -1069,6 +1074,32 @@ func osTranslate(p *osPkg, fc *osFnCfg) (*osResult, error) {
 			}
 		}
 		body = fd.Body.List
+		if fc.seg != "" {
+			// function of the shape `if c { …; return r }; …` (one early-return branch): the condition,
+			// the branch and the rest are three sequences over the same parameters
+			if len(body) == 0 {
+				return nil, p.errAt(fd, "%s: empty body", fc.fn)
+			}
+			ifs, ok := body[0].(*ast.IfStmt)
+			if !ok || ifs.Init != nil || ifs.Else != nil || len(ifs.Body.List) == 0 {
+				return nil, p.errAt(body[0], "%s: expected a leading `if c { …; return }` without else", fc.fn)
+			}
+			if _, ok := ifs.Body.List[len(ifs.Body.List)-1].(*ast.ReturnStmt); !ok {
+				return nil, p.errAt(ifs, "%s: the branch does not end in return", fc.fn)
+			}
+			c.facts = append(c.facts, [2]string{"branch", "if " + p.text(ifs.Cond) + " { …; return }"})
+			switch fc.seg {
+			case "if.cond":
+				body = []ast.Stmt{&ast.ReturnStmt{Return: ifs.Cond.Pos(), Results: []ast.Expr{ifs.Cond}}}
+			case "if.then":
+				body = ifs.Body.List
+			case "if.else":
+				body = body[1:]
+			default:
+				return nil, fmt.Errorf("%s: unknown segment %q", fc.fn, fc.seg)
+			}
+			doc = fc.fn + " [" + fc.seg + "]"
+		}
 	} else {
 		// statement range of a function with exactly one top-level loop
 		forIdx := -1
@@ -1181,7 +1212,7 @@ func osTranslate(p *osPkg, fc *osFnCfg) (*osResult, error) {
 	}
 
 	// outputs
-	if fc.seg == "" {
+	if whole {
 		if recvBind != nil {
 			wrote := false
 			for _, f := range p.structs[recvBind.typ] {
@@ -1292,7 +1323,7 @@ func osTranslate(p *osPkg, fc *osFnCfg) (*osResult, error) {
 	}
 	var order []*osVar
 	for _, v := range inputs {
-		if fc.seg == "" || used[v] {
+		if whole || used[v] {
 			order = append(order, v)
 		}
 	}
